@@ -762,6 +762,10 @@ type unknownVal struct{ ssa.Value }
 // An *unknownVal entry means undetermined (non-constant index store, passed to a writer, ...).
 // initial: value of a fresh vector (NewIndex(c) → c; array literal → zero) is resolved by the caller
 // through the returned `fresh` flag (the definition was reached without a store).
+// vecIndexHook lets a caller that knows the calling context resolve a store index that is not a constant in
+// the function itself (`from[len(extent)] = …` in a helper whose extent argument is a literal at the call).
+var vecIndexHook func(ssa.Value) (int64, bool)
+
 func vecElemAt(eff *Effects, vec ssa.Value, k int64, at ssa.Instruction) (vals []ssa.Value, fresh bool, unknown string) {
 	base := vecBase(vec)
 	sameVec := func(v ssa.Value) bool {
@@ -788,7 +792,11 @@ func vecElemAt(eff *Effects, vec ssa.Value, k int64, at ssa.Instruction) (vals [
 			switch x := ins.(type) {
 			case *ssa.Store:
 				if ia, ok := x.Addr.(*ssa.IndexAddr); ok && sameVec(ia.X) {
-					if c, ok := constInt(ia.Index); ok {
+					c, ok := constInt(ia.Index)
+					if !ok && vecIndexHook != nil {
+						c, ok = vecIndexHook(ia.Index)
+					}
+					if ok {
 						if c == k {
 							vals = append(vals, x.Val)
 							return
